@@ -45,8 +45,12 @@ PROPS = {
                    "eval_eq_denote: the upper bound of a ^n-m operator is within the address family (for an operator applied to a "
                    "set: ≤ 32); for the code as it is (Cfg.pinned) no route-set member carries a range operator (D16: such members "
                    "are silently dropped — routeset_range_member_dropped_cex; spec class routeset-range-member-dropped). "
-                   "NOT is only exercised over prefixes ≤ /12 because generic-ip 0.1.1 complements a set in time exponential in the "
-                   "prefix length (see notes). The agent path is `agent::verif::evaluate` (H3); route-filters installed in the fake "
+                   "Two further spec classes concern the dependencies in front of / below the evaluator and are not repairable in "
+                   "/repo: operator-precedence (the rpsl grammar reads `A AND B OR C` as `A AND (B OR C)` and `NOT A AND B` as "
+                   "`NOT (A AND B)`, RFC 2622 §5.4 prescribes NOT > AND > OR; operator_precedence_cex; eval_eq_denote is about the "
+                   "tree the parser built) and not-exponential-in-prefix-length (generic-ip 0.1.1 complements a set in time "
+                   "exponential in the prefix length: ~0.2 s for a /16, ~40 s for a /24, no result for a /32 — NOT over real IRR "
+                   "data does not terminate in practice; therefore NOT is only exercised over prefixes ≤ /12). The agent path is `agent::verif::evaluate` (H3); route-filters installed in the fake "
                    "Junos are covered by the agent-run op of C01.",
         rule="generated databases (≤ 8 sets, ≤ 10 ASes, cyclic / self-referencing membership, unknown member sets, v4-only / "
              "v6-only / route-less ASes, duplicate prefixes, route-sets with prefix, AS and set members, with and without range "
